@@ -179,7 +179,7 @@ _ZYGOTE = {}
 
 def isolated(check, case, timeout_s=None):
     t = timeout_s or getattr(check, 'run_timeout_s', 60.0)
-    if check.isolation == 'fork':
+    if check.isolation == 'fork' or os.environ.get('VERIF_FORCE_FORK'):
         if hasattr(check, 'zygote_init') and check.wants_zygote(case):
             z = _ZYGOTE.get(os.getpid())
             if z is None:
